@@ -14,59 +14,101 @@
 (* client: the model is checked for deadlock and for the hazard "send to a *)
 (* full channel".  With Cap = 1 (the code) both hold; Cap = 0 deadlocks    *)
 (* (selftest).  Lock order M -> S[g] is checked too.                       *)
+(* A worker that asks for a service ticket first makes sure the session is *)
+(* valid (ensureValidSession): it takes the session's READ lock (R[g]: the *)
+(* set of readers), looks at the times, RELEASES it, and - when the TGT is *)
+(* in the last sixth of its life - refreshes the session itself: renewal   *)
+(* in place (write lock on the same session) or a new login.  With         *)
+(* ReleaseBeforeRefresh = FALSE the read lock is still held then (seeded   *)
+(* change C11-s3): the write lock never comes and the client is stuck.     *)
+(* A renewal in place (by a caller or by the session's own goroutine) ends *)
+(* with sessions.update(s) for the SAME session object: if a login has     *)
+(* replaced it meanwhile, the old session is registered again - possibly   *)
+(* one whose goroutine is gone and whose cancel buffer is full.  The next  *)
+(* cancel sent to it then blocks for ever while M and the session's mutex  *)
+(* are held (gokrb5 as found: NonBlockingCancel = FALSE, finding           *)
+(* C11-cancel-send-blocks).  With a send that gives up when a cancel is    *)
+(* already pending (NonBlockingCancel = TRUE, the repair) nothing blocks.  *)
 (***************************************************************************)
 EXTENDS Integers, Sequences, FiniteSets, TLC
-CONSTANTS Workers, MaxGen, Cap
-VARIABLES M, S, chan, cur, gen, renewer, pc, tgt, held
-vars == <<M, S, chan, cur, gen, renewer, pc, tgt, held>>
+CONSTANTS Workers, MaxGen, Cap, ReleaseBeforeRefresh, NonBlockingCancel
+VARIABLES M, S, R, chan, cur, gen, renewer, pc, tgt, held
+vars == <<M, S, R, chan, cur, gen, renewer, pc, tgt, held>>
 Gens == 1..MaxGen
 Procs == Workers \cup { <<"renew", g>> : g \in Gens }
 Free == <<"free", 0>>
-Init == /\ M = Free /\ S = [g \in Gens |-> Free] /\ chan = [g \in Gens |-> 0] /\ cur = 0 /\ gen = 0
+Init == /\ M = Free /\ S = [g \in Gens |-> Free] /\ R = [g \in Gens |-> {}] /\ chan = [g \in Gens |-> 0] /\ cur = 0 /\ gen = 0
         /\ renewer = [g \in Gens |-> "unborn"] /\ pc = [p \in Procs |-> "idle"] /\ tgt = [p \in Procs |-> 0] /\ held = [p \in Procs |-> {}]
 \* ---- login (addSession): usable by workers and by a renewer that logs in afresh -------------------------------------------
-LoginStart(p) == /\ pc[p] = "idle" /\ gen < MaxGen /\ (p \in Workers \/ renewer[p[2]] = "running")
+LoginStart(p) == /\ pc[p] \in {"idle", "refresh"} /\ gen < MaxGen /\ (p \in Workers \/ renewer[p[2]] = "running")
                  /\ gen' = gen + 1 /\ tgt' = [tgt EXCEPT ![p] = gen + 1]
                  /\ chan' = [chan EXCEPT ![gen + 1] = 0] /\ renewer' = [renewer EXCEPT ![gen + 1] = "running"]   \* enableAutoSessionRenewal
-                 /\ pc' = [pc EXCEPT ![p] = "lockM"] /\ UNCHANGED <<M, S, cur, held>>
+                 /\ pc' = [pc EXCEPT ![p] = "lockM"] /\ UNCHANGED <<M, S, R, cur, held>>
 LockM(p) == /\ pc[p] \in {"lockM", "dLockM"} /\ M = Free /\ M' = p /\ held' = [held EXCEPT ![p] = @ \cup {"M"}]
             /\ pc' = [pc EXCEPT ![p] = IF pc[p] = "lockM" THEN (IF cur # 0 /\ cur # tgt[p] THEN "lockS" ELSE "replace")
                                        ELSE (IF cur # 0 THEN "dLockS" ELSE "dDone")]
-            /\ UNCHANGED <<S, chan, cur, gen, renewer, tgt>>
-LockS(p) == /\ pc[p] \in {"lockS", "dLockS"} /\ S[cur] = Free /\ S' = [S EXCEPT ![cur] = p]
+            /\ UNCHANGED <<S, R, chan, cur, gen, renewer, tgt>>
+\* a write lock waits for the readers too
+LockS(p) == /\ pc[p] \in {"lockS", "dLockS"} /\ S[cur] = Free /\ R[cur] = {} /\ S' = [S EXCEPT ![cur] = p]
             /\ held' = [held EXCEPT ![p] = @ \cup {"S"}]
-            /\ pc' = [pc EXCEPT ![p] = IF pc[p] = "lockS" THEN "send" ELSE "dSend"] /\ UNCHANGED <<M, chan, cur, gen, renewer, tgt>>
+            /\ pc' = [pc EXCEPT ![p] = IF pc[p] = "lockS" THEN "send" ELSE "dSend"] /\ UNCHANGED <<M, R, chan, cur, gen, renewer, tgt>>
 \* the cancel send: blocks while the buffer is full (and, with Cap = 0, until a receiver is ready)
 Send(p) == /\ pc[p] \in {"send", "dSend"}
            /\ IF Cap = 0 THEN renewer[cur] = "running" /\ pc[<<"renew", cur>>] = "idle"     \* rendezvous with a waiting receiver
-              ELSE chan[cur] < Cap
+              ELSE chan[cur] < Cap \/ NonBlockingCancel
            /\ IF Cap = 0 THEN renewer' = [renewer EXCEPT ![cur] = "exited"] /\ UNCHANGED chan
-              ELSE chan' = [chan EXCEPT ![cur] = @ + 1] /\ UNCHANGED renewer
+              ELSE IF chan[cur] < Cap THEN chan' = [chan EXCEPT ![cur] = @ + 1] /\ UNCHANGED renewer
+                   ELSE UNCHANGED <<chan, renewer>>                                        \* a cancel is pending already: nothing to add
            /\ pc' = [pc EXCEPT ![p] = IF pc[p] = "send" THEN "replace" ELSE "dDone"]
-           /\ UNCHANGED <<M, S, cur, gen, tgt, held>>
+           /\ UNCHANGED <<M, S, R, cur, gen, tgt, held>>
 Replace(p) == /\ pc[p] = "replace" /\ cur' = tgt[p]
               /\ S' = [g \in Gens |-> IF S[g] = p THEN Free ELSE S[g]] /\ M' = Free /\ held' = [held EXCEPT ![p] = {}]
-              /\ pc' = [pc EXCEPT ![p] = IF p \in Workers THEN "idle" ELSE "exit"] /\ UNCHANGED <<chan, gen, renewer, tgt>>
+              /\ R' = [g \in Gens |-> R[g] \ {p}]                 \* (a read lock still held by a caller-side refresh is released when the call returns)
+              /\ pc' = [pc EXCEPT ![p] = IF p \in Workers \/ tgt[p] = p[2] THEN "idle" ELSE "exit"]   \* (a goroutine that renewed its own session in place goes on)
+              /\ UNCHANGED <<chan, gen, renewer, tgt>>
 \* ---- destroy --------------------------------------------------------------------------------------------------------------------
-DestroyStart(p) == p \in Workers /\ pc[p] = "idle" /\ pc' = [pc EXCEPT ![p] = "dLockM"] /\ UNCHANGED <<M, S, chan, cur, gen, renewer, tgt, held>>
+DestroyStart(p) == p \in Workers /\ pc[p] = "idle" /\ pc' = [pc EXCEPT ![p] = "dLockM"] /\ UNCHANGED <<M, S, R, chan, cur, gen, renewer, tgt, held>>
 DestroyDone(p) == /\ pc[p] = "dDone" /\ cur' = 0 /\ S' = [g \in Gens |-> IF S[g] = p THEN Free ELSE S[g]] /\ M' = Free
-                  /\ held' = [held EXCEPT ![p] = {}] /\ pc' = [pc EXCEPT ![p] = "idle"] /\ UNCHANGED <<chan, gen, renewer, tgt>>
+                  /\ held' = [held EXCEPT ![p] = {}] /\ pc' = [pc EXCEPT ![p] = "idle"] /\ UNCHANGED <<R, chan, gen, renewer, tgt>>
+\* ---- a service-ticket request: ensureValidSession, and the refresh by the caller ----------------------------------------------------
+GetStart(p) == /\ p \in Workers /\ pc[p] = "idle" /\ cur # 0 /\ tgt' = [tgt EXCEPT ![p] = cur]
+               /\ pc' = [pc EXCEPT ![p] = "rLockS"] /\ UNCHANGED <<M, S, R, chan, cur, gen, renewer, held>>
+RLockS(p) == /\ pc[p] = "rLockS" /\ S[tgt[p]] = Free /\ R' = [R EXCEPT ![tgt[p]] = @ \cup {p}]
+             /\ pc' = [pc EXCEPT ![p] = "decide"] /\ UNCHANGED <<M, S, chan, cur, gen, renewer, tgt, held>>
+\* the TGT has plenty of time left: release and go on; or it is in the last sixth of its life: refresh it
+StillValid(p) == /\ pc[p] = "decide" /\ R' = [R EXCEPT ![tgt[p]] = @ \ {p}] /\ pc' = [pc EXCEPT ![p] = "idle"]
+                 /\ UNCHANGED <<M, S, chan, cur, gen, renewer, tgt, held>>
+NeedsRefresh(p) == /\ pc[p] = "decide" /\ pc' = [pc EXCEPT ![p] = "refresh"]
+                   /\ R' = IF ReleaseBeforeRefresh THEN [R EXCEPT ![tgt[p]] = @ \ {p}] ELSE R
+                   /\ UNCHANGED <<M, S, chan, cur, gen, renewer, tgt, held>>
+\* renewal in place (renewTGT -> session.update): the write lock of the same session, which waits for every reader
+\* and then sessions.update(s) with the same session: registers it (again), cancelling whatever a login has put there meanwhile
+RenewInPlace(p) == /\ pc[p] = "refresh" /\ S[tgt[p]] = Free /\ R[tgt[p]] = {} /\ pc' = [pc EXCEPT ![p] = "lockM"]
+                   /\ UNCHANGED <<M, S, R, chan, cur, gen, renewer, tgt, held>>
+\* the session's own goroutine: the timer fired and the TGT is renewable
+RenewerRenews(g) == LET p == <<"renew", g>> IN
+                   /\ renewer[g] = "running" /\ pc[p] = "idle" /\ tgt' = [tgt EXCEPT ![p] = g] /\ pc' = [pc EXCEPT ![p] = "refresh"]
+                   /\ UNCHANGED <<M, S, R, chan, cur, gen, renewer, held>>
+\* (the other way to refresh is a new login: LoginStart from "refresh")
 \* ---- the auto-renew goroutine of session g ---------------------------------------------------------------------------------------
 Recv(g) == LET p == <<"renew", g>> IN
            /\ renewer[g] = "running" /\ pc[p] = "idle" /\ Cap > 0 /\ chan[g] > 0
            /\ chan' = [chan EXCEPT ![g] = @ - 1] /\ renewer' = [renewer EXCEPT ![g] = "exited"]
-           /\ UNCHANGED <<M, S, cur, gen, pc, tgt, held>>
+           /\ UNCHANGED <<M, S, R, cur, gen, pc, tgt, held>>
 \* the timer fired and a new login replaced the session: the goroutine ends without draining its channel
 RenewerExit(g) == LET p == <<"renew", g>> IN
            /\ pc[p] = "exit" /\ renewer' = [renewer EXCEPT ![g] = "exited"] /\ pc' = [pc EXCEPT ![p] = "gone"]
-           /\ UNCHANGED <<M, S, chan, cur, gen, tgt, held>>
+           /\ UNCHANGED <<M, S, R, chan, cur, gen, tgt, held>>
 Next == \/ \E p \in Procs : LoginStart(p) \/ LockM(p) \/ LockS(p) \/ Send(p) \/ Replace(p) \/ DestroyStart(p) \/ DestroyDone(p)
+        \/ \E p \in Workers : GetStart(p) \/ RLockS(p) \/ StillValid(p) \/ NeedsRefresh(p)
+        \/ \E p \in Procs : RenewInPlace(p)
+        \/ \E g \in Gens : RenewerRenews(g)
         \/ \E g \in Gens : Recv(g) \/ RenewerExit(g)
 Spec == Init /\ [][Next]_vars
 \* ---- properties -------------------------------------------------------------------------------------------------------------------
 \* nobody ever waits to send on a channel that cannot take the value (the sends happen under M and S)
 NoBlockedSend == \A p \in Procs : pc[p] \in {"send", "dSend"} =>
-                    IF Cap = 0 THEN renewer[cur] = "running" ELSE chan[cur] < Cap
+                    IF Cap = 0 THEN renewer[cur] = "running" ELSE chan[cur] < Cap \/ NonBlockingCancel
 \* lock order: S[g] is only taken while holding M
 LockOrder == \A p \in Procs : "S" \in held[p] => "M" \in held[p]
 \* mutual exclusion bookkeeping
